@@ -644,13 +644,6 @@ section peval
 variable {K : Type} [Add K] [Sub K] [Mul K] [Div K] [Neg K] [LE K] [DecidableLE K]
   [OfNat K 0] [OfNat K 1] [OfNat K 2] [OfNat K 3] [OfNat K 4] [Transc K]
 
-/-- no `set_volume` below (user volumes are not carried over by `__call__`) -/
-def NoUser : VDom K → Prop
-  | .interval .. | .par .. | .tri .. | .circle .. | .sphere .. | .point .. => True
-  | .union _ a b | .cut _ a b | .inter a b | .prod a b => NoUser a ∧ NoUser b
-  | .translate _ d _ | .rotate _ d _ _ | .bdry d | .bdryL d | .bdryR d => NoUser d
-  | .userVol _ _ => False
-
 /-- binding `σ` does not change which products are "constant" (true whenever `σ` binds no coordinate
     variable of the expression: `prodConstant` only looks at coordinate variables of the second factor) -/
 def ProdStable (σ : Env K) : VDom K → Prop
@@ -664,42 +657,45 @@ omit [Add K] [Sub K] [Mul K] [Div K] [Neg K] [LE K] [DecidableLE K] [OfNat K 0] 
 /-- aux: a partially evaluated parameter sees the bound values -/
 theorem pfun_peval_f (p : PFun K) (σ e : Env K) : (p.peval σ).f e = p.f (e ++ σ) := rfl
 
-/-- **partial evaluation keeps the volume**: `D(**σ).volume(ρ) = D.volume(ρ ∪ σ)`, value and warning -/
-theorem peval_volAux (σ : Env K) (d : VDom K) : ∀ (onB : Bool) (ρ : Env K), NoUser d → ProdStable σ d →
+/-- **partial evaluation keeps the volume**: `D(**σ).volume(ρ) = D.volume(ρ ∪ σ)`, value and warning — for every
+    expression, user overrides included -/
+theorem peval_volAux (σ : Env K) (d : VDom K) : ∀ (onB : Bool) (ρ : Env K), ProdStable σ d →
     volAux onB (d.peval σ) ρ = volAux onB d (ρ ++ σ) := by
   induction d with
-  | interval v lb ub => intro onB ρ _ _; cases onB <;> simp [VDom.peval, volAux, pfun_peval_f]
-  | par v o c1 c2 => intro onB ρ _ _; simp [VDom.peval, volAux, pfun_peval_f]
-  | tri v o c1 c2 => intro onB ρ _ _; simp [VDom.peval, volAux, pfun_peval_f]
-  | circle v c r => intro onB ρ _ _; simp [VDom.peval, volAux, pfun_peval_f]
-  | sphere v c r => intro onB ρ _ _; simp [VDom.peval, volAux, pfun_peval_f]
-  | point v p => intro onB ρ _ _; cases onB <;> simp [VDom.peval, volAux]
+  | interval v lb ub => intro onB ρ _; cases onB <;> simp [VDom.peval, volAux, pfun_peval_f]
+  | par v o c1 c2 => intro onB ρ _; simp [VDom.peval, volAux, pfun_peval_f]
+  | tri v o c1 c2 => intro onB ρ _; simp [VDom.peval, volAux, pfun_peval_f]
+  | circle v c r => intro onB ρ _; simp [VDom.peval, volAux, pfun_peval_f]
+  | sphere v c r => intro onB ρ _; simp [VDom.peval, volAux, pfun_peval_f]
+  | point v p => intro onB ρ _; cases onB <;> simp [VDom.peval, volAux]
   | union dj a b iha ihb =>
-    intro onB ρ hn hp
-    cases onB <;> simp [VDom.peval, volAux, iha _ ρ hn.1 hp.1, ihb _ ρ hn.2 hp.2]
+    intro onB ρ hp
+    cases onB <;> simp [VDom.peval, volAux, iha _ ρ hp.1, ihb _ ρ hp.2]
   | cut ct a b iha ihb =>
-    intro onB ρ hn hp
-    cases onB <;> simp [VDom.peval, volAux, iha _ ρ hn.1 hp.1, ihb _ ρ hn.2 hp.2]
+    intro onB ρ hp
+    cases onB <;> simp [VDom.peval, volAux, iha _ ρ hp.1, ihb _ ρ hp.2]
   | inter a b iha ihb =>
-    intro onB ρ hn hp
-    cases onB <;> simp [VDom.peval, volAux, iha _ ρ hn.1 hp.1, ihb _ ρ hn.2 hp.2]
+    intro onB ρ hp
+    cases onB <;> simp [VDom.peval, volAux, iha _ ρ hp.1, ihb _ ρ hp.2]
   | prod a b iha ihb =>
-    intro onB ρ hn hp
-    cases onB <;> simp [VDom.peval, volAux, hp.1, iha _ ρ hn.1 hp.2.1, ihb _ ρ hn.2 hp.2.2]
-  | translate v d t ih => intro onB ρ hn hp; cases onB <;> simp [VDom.peval, volAux, ih _ ρ hn hp]
-  | rotate v d m c ih => intro onB ρ hn hp; cases onB <;> simp [VDom.peval, volAux, ih _ ρ hn hp]
-  | bdry d ih => intro onB ρ hn hp; cases onB <;> simp [VDom.peval, volAux, ih _ ρ hn hp]
+    intro onB ρ hp
+    cases onB <;> simp [VDom.peval, volAux, hp.1, iha _ ρ hp.2.1, ihb _ ρ hp.2.2]
+  | translate v d t ih => intro onB ρ hp; cases onB <;> simp [VDom.peval, volAux, ih _ ρ hp]
+  | rotate v d m c ih => intro onB ρ hp; cases onB <;> simp [VDom.peval, volAux, ih _ ρ hp]
+  | bdry d ih => intro onB ρ hp; cases onB <;> simp [VDom.peval, volAux, ih _ ρ hp]
   | bdryL d ih =>
-    intro onB ρ hn hp
-    cases d <;> first | (cases onB <;> simp [VDom.peval, volAux]; done) | (exact absurd hn (by simp [NoUser]))
+    intro onB ρ hp
+    cases d <;> cases onB <;> simp [VDom.peval, volAux]
   | bdryR d ih =>
-    intro onB ρ hn hp
-    cases d <;> first | (cases onB <;> simp [VDom.peval, volAux]; done) | (exact absurd hn (by simp [NoUser]))
-  | userVol d f ih => intro onB ρ hn; exact hn.elim
+    intro onB ρ hp
+    cases d <;> cases onB <;> simp [VDom.peval, volAux]
+  | userVol d f ih =>
+    intro onB ρ hp
+    cases onB <;> simp [VDom.peval, volAux, pfun_peval_f, ih _ ρ hp]
 
 /-- the same for `volume` -/
-theorem peval_volume (σ : Env K) (d : VDom K) (ρ : Env K) (hn : NoUser d) (hp : ProdStable σ d) :
-    volume (d.peval σ) ρ = volume d (ρ ++ σ) := peval_volAux σ d false ρ hn hp
+theorem peval_volume (σ : Env K) (d : VDom K) (ρ : Env K) (hp : ProdStable σ d) :
+    volume (d.peval σ) ρ = volume d (ρ ++ σ) := peval_volAux σ d false ρ hp
 end peval
 
 /-- the pinned snapshot forgot the `contained` declaration in `__call__`: `[0, 2+t] \ [0,1]` evaluated at
@@ -715,7 +711,7 @@ theorem pevalOld_changes_volume :
     simp [volume, volAux, VDom.peval, VDom.pevalOld, PFun.peval, PFun.const, Env.get, List.lookup, intervalVol, bind,
       Except.bind, pure, Except.pure] <;> norm_num
 
-/-! ## the expression-level statement (not proved as one theorem, see `unproved_statements`) -/
+/-! ## induction steps at the level of the denoted sets (the full induction is in Props/C10Sound.lean) -/
 
 /-- the set a one-variable 2-D expression denotes -/
 def S2 (v : String) (e : Dom ℝ) (ρ : Env ℝ) : Set (Fin 2 → ℝ) := {p | mem e [(v, [p 0, p 1])] ρ}
@@ -756,36 +752,6 @@ theorem translate_step (v : String) (e : Dom ℝ) (t : PFun ℝ) (ρ : Env ℝ) 
       exact ⟨q 0, q 1, _, _, tx, ty, rfl, rfl, by simp, by simp, hq⟩
   rw [this, translation_invariant]
 
-/-- the side conditions of the expression-level statement: parameters do not depend on the point, radii are
-    non-negative, declared unions ARE disjoint and declared cuts ARE contained (as denoted sets), translation
-    vectors / rotation matrices do not depend on the point and the matrices have determinant ±1 -/
-def Truthful (v : String) (ρ : Env ℝ) : VDom ℝ → Prop
-  | .interval .. | .sphere .. | .point .. | .bdry _ | .bdryL _ | .bdryR _ | .userVol .. | .prod .. => False
-  | .par _ o c1 c2 | .tri _ o c1 c2 =>
-    ∀ q, o.f ([(v, q)] ++ ρ) = o.f ρ ∧ c1.f ([(v, q)] ++ ρ) = c1.f ρ ∧ c2.f ([(v, q)] ++ ρ) = c2.f ρ
-  | .circle _ c r =>
-    (∀ q, c.f ([(v, q)] ++ ρ) = c.f ρ ∧ r.f ([(v, q)] ++ ρ) = r.f ρ) ∧ ∀ x, r.f ρ = [x] → 0 ≤ x
-  | .union dj a b =>
-    (dj = true → ∀ ea eb, a.erase = some ea → b.erase = some eb → Disjoint (S2 v ea ρ) (S2 v eb ρ)) ∧
-      Truthful v ρ a ∧ Truthful v ρ b
-  | .cut ct a b =>
-    (ct = true → ∀ ea eb, a.erase = some ea → b.erase = some eb → S2 v eb ρ ⊆ S2 v ea ρ) ∧
-      Truthful v ρ a ∧ Truthful v ρ b
-  | .inter a b => Truthful v ρ a ∧ Truthful v ρ b
-  | .translate _ d t => (∀ q, t.f ([(v, q)] ++ ρ) = t.f ρ) ∧ Truthful v ρ d
-  | .rotate _ d m c =>
-    (∀ q, m.f ([(v, q)] ++ ρ) = m.f ρ ∧ c.f ([(v, q)] ++ ρ) = c.f ρ) ∧
-      (∀ m00 m01 m10 m11, m.f ρ = [m00, m01, m10, m11] → |m00 * m11 - m01 * m10| = 1) ∧ Truthful v ρ d
-
-/-- **full statement** (kept visible; NOT proved as one theorem — proved step-wise: `par/tri/circle_volume_sound`
-    for the leaves, `union_step`, `cut_step`, `translate_step`, `rotation_invariant` for the nodes; the missing
-    part is the measurability book-keeping of the induction and the disc in `Fin 2 → ℝ` instead of
-    `EuclideanSpace ℝ (Fin 2)`).  For every 2-D one-variable solid expression that satisfies `Truthful`:
-    a value returned WITHOUT warning is the Lebesgue measure of the denoted set. -/
-def C10_full_volume_sound : Prop :=
-  ∀ (v : String) (D : VDom ℝ) (e : Dom ℝ) (ρ : Env ℝ) (x : ℝ),
-    D.erase = some e → D.vars = [v] → Truthful v ρ D →
-    volume D ρ = .ok (x, false) → μL (S2 v e ρ) = ENNReal.ofReal x
 
 /-! ## 4. counting -/
 
